@@ -92,6 +92,8 @@ class CompiledLogicNet(torch.nn.Module):
 
     def _parse_model(self, verbose: bool):
         """Parse the model structure, handling conv, pooling, and linear layers."""
+        self.conv_layers, self.pooling_layers, self.linear_layers, self.linear_in_dims = [], [], [], []
+        self.layer_order, self.num_classes, self.input_shape = [], None, None
         # The layers are translated as a plain chain: a container whose forward is not torch.nn.Sequential's own
         # (a subclass overriding forward, a ModuleList, ...) computes something else.
         if type(self.model).forward is not torch.nn.Sequential.forward:
@@ -718,6 +720,8 @@ class CompiledLogicNet(torch.nn.Module):
         if self.model is None:
             # a handle returned by load() has no model: the generated logic_net would be empty
             raise ValueError("This CompiledLogicNet was loaded from a library and has no model to generate code from.")
+        # translate the model as it is now: gates, wiring or layers may have changed since the constructor looked at it
+        self._parse_model(verbose=False)
         code = [
             "#include <stddef.h>",
             "#include <stdlib.h>",
